@@ -284,11 +284,12 @@ def ob_protocol(module: str, qualname: str, target_expr: str, content_name: str,
 
 
 def probe_faults(scenario: str = "wt_overwrite_nohash"):
-    """single-fault + kill sweep of one scenario through the real code (the bounded harness), atomicity oracles only"""
+    """single-fault, fault-pair (second fault at every call the run makes after the first) and kill sweep of one scenario
+    through the real code (the bounded harness), atomicity oracles only"""
     from verif.bounded import fsharness as F
 
     scn = next(s for s in F.scenarios() if s["name"] == scenario)
-    r = F.sweep(scn, pairs=False, cores=1)  # probes run inside pool workers: no nested pools
+    r = F.sweep(scn, pairs=True, cores=1)  # probes run inside pool workers: no nested pools
     bad = [v for v in r["violations"] if v["what"].split(":", 1)[0] not in ("exception_escaped", "spurious_hash_mismatch", "cas_absent_target_written")]
     if bad:
         return True, f"{len(bad)} failing fault points, e.g. {bad[0]['mode']} at {bad[0]['at']} ({bad[0]['errno']}): {bad[0]['what'][:160]}"
